@@ -368,7 +368,7 @@ __CPROVER_assigns(S, G)
 __CPROVER_ensures(G.io_adds == 1)
 __CPROVER_ensures(IO_WON ==> (G.completed == 1 && G.syscalls == 1 && RESULT_DELIVERED && !G.registered)) /* the winner completes with the result of ITS transfer */
 __CPROVER_ensures(!IO_WON ==> (G.completed == 0 && G.syscalls == 0 && !G.dead && NO_STALE_REG)) /* the loser neither consumes data nor signals the receiver */
-__CPROVER_ensures(VF_CFG_stop_possible ==> G.cb_state == CB_DESTRUCTED)
+__CPROVER_ensures((VF_CFG_stop_possible && IO_WON) ==> G.cb_state == CB_DESTRUCTED) /* the winner has destroyed the stop callback (it can no longer fire) before it completes the receiver */
 __CPROVER_ensures(G.adds == 0)
 __CPROVER_ensures(G.dead ==> OP_UNTOUCHED)
 /*@BODY RD_on_complete*/
@@ -379,7 +379,7 @@ __CPROVER_assigns(S, G)
 __CPROVER_ensures(G.io_adds == 1)
 __CPROVER_ensures(IO_WON ==> (G.completed == 1 && G.syscalls == 1 && RESULT_DELIVERED && !G.registered)) /* the winner completes with the result of ITS transfer */
 __CPROVER_ensures(!IO_WON ==> (G.completed == 0 && G.syscalls == 0 && !G.dead && NO_STALE_REG)) /* the loser neither consumes data nor signals the receiver */
-__CPROVER_ensures(VF_CFG_stop_possible ==> G.cb_state == CB_DESTRUCTED)
+__CPROVER_ensures((VF_CFG_stop_possible && IO_WON) ==> G.cb_state == CB_DESTRUCTED) /* the winner has destroyed the stop callback (it can no longer fire) before it completes the receiver */
 __CPROVER_ensures(G.adds == 0)
 __CPROVER_ensures(G.dead ==> OP_UNTOUCHED)
 /*@BODY WR_on_complete*/
@@ -484,7 +484,8 @@ static void stop_canaries(void) {
 void h_rd_request_stop(void) { h_stop(FAM_RD); RD_request_stop(&S); stop_canaries(); }
 void h_wr_request_stop(void) { h_stop(FAM_WR); WR_request_stop(&S); stop_canaries(); }
 static void h_done(int fam) {
-  h_parked(fam); VF_CFG_stop_possible = 1; G.cb_state = CB_CONSTRUCTED; G.path = PATH_DONE;
+  h_parked(fam); VF_CFG_stop_possible = 1; G.path = PATH_DONE;
+  G.cb_state = CB_CONSTRUCTED;                        /* nobody has destroyed the callback that scheduled this item (the case in which the I/O item never ran) */
   __CPROVER_assume(CANCEL_WON);                       /* the done item exists only because the canceller won */
   S.done_op_.enqueued_ = 0; S.done_op_.execute_ = NULL; S.done_op_.next_ = NULL;   /* dequeued for execution (execute_pending_local) */
   if (VF_nondet_bool()) { uint32_t o = S.state_; S.state_ = o + IO_FLAG; G.i_old = o; G.io_adds = 1; S.completion_base_.execute_ = NULL; }   /* the I/O side may have run and lost */
